@@ -488,3 +488,24 @@ V('LZ_hex_via_hex', ['C19'], 'bitstore.py', "        return bitarray.util.ba2hex
   "        s = self.getslice(start, end)\n        return hex(s.slice_to_uint())[2:] if len(s) else ''", ['LZ'])
 S('LZ_bin_via_int_padded', ['C19'], 'bitstore.py', "        return self.getslice(start, end)._bitarray.to01()",
   "        s = self.getslice(start, end)\n        return format(s.slice_to_uint(), f'0{len(s)}b') if len(s) else ''")
+
+# ---- H4: le wrapper forwards parameters
+V('H4_le_wrapper_rebinds_signed', ['C15', 'C02', 'C18'], 'bitstore_helpers.py', "    x = int2bitstore(i, length, signed).tobytes()\n    return BitStore.frombytes(x[::-1])",
+  "    i = int(i)\n    if signed and i < 0:\n        i += 1 << length\n        signed = False\n    x = int2bitstore(i, length, signed).tobytes()\n    return BitStore.frombytes(x[::-1])", ['H4'])
+S('H4_le_wrapper_coerces', ['C15', 'C02', 'C18'], 'bitstore_helpers.py', "    x = int2bitstore(i, length, signed).tobytes()\n    return BitStore.frombytes(x[::-1])",
+  "    i = int(i)\n    x = int2bitstore(i, length, signed).tobytes()\n    return BitStore.frombytes(x[::-1])")
+
+# ---- WIN
+V('WIN_bytesio_guard_forgets_byteoffset', ['C15', 'C17'], 'bits.py', "            if length + byteoffset * 8 + offset > s.seek(0, 2) * 8:", "            if length + offset > s.seek(0, 2) * 8:", ['WIN'])
+V('WIN_bytesio_short_byte_slice', ['C15', 'C17'], 'bits.py', "            bytelength = (length + byteoffset * 8 + offset + 7) // 8 - byteoffset", "            bytelength = (length + 7) // 8", ['WIN'])
+V('WIN_bitarray_guard_forgets_offset', ['C15', 'C17'], 'bits.py', "            if offset + length > len(ba):", "            if length > len(ba):", ['WIN'])
+V('WIN_bytes_guard_in_bytes', ['C15', 'C17'], 'bits.py', "            if length + offset > len(data) * 8:", "            if length + offset > len(data):", ['WIN'])
+S('WIN_bytesio_guard_reordered', ['C15', 'C17'], 'bits.py', "            if length + byteoffset * 8 + offset > s.seek(0, 2) * 8:", "            if s.seek(0, 2) * 8 < offset + 8 * byteoffset + length:")
+S('WIN_bytesio_bytelength_simplified', ['C15', 'C17'], 'bits.py', "            bytelength = (length + byteoffset * 8 + offset + 7) // 8 - byteoffset", "            bytelength = (length + offset + 7) // 8")
+
+# ---- H5c: e8m0 exact membership
+_E8_OLD = "    try:\n        i = e8m0mxfp_allowed_values.index(f)\n    except ValueError:\n        raise ValueError("
+V('H5c_e8m0_log2_membership', ['C11'], 'bitstore_helpers.py', _E8_OLD,
+  "    try:\n        exponent = math.log2(f)\n        if not exponent.is_integer() or not -127 <= exponent <= 127:\n            raise ValueError\n        i = int(exponent) + 127\n    except (ValueError, OverflowError):\n        raise ValueError(", ['H5c'])
+S('H5c_e8m0_log2_with_exact_check', ['C11'], 'bitstore_helpers.py', _E8_OLD,
+  "    try:\n        if f <= 0 or math.isinf(f):\n            raise ValueError\n        k = round(math.log2(f))\n        if not -127 <= k <= 127 or 2.0 ** k != f:\n            raise ValueError\n        i = k + 127\n    except ValueError:\n        raise ValueError(")
